@@ -257,6 +257,12 @@ def run(ctx):
     if neg["ok"] or not tlc_is_spec_violation(neg):
         raise ToolError("negative control: routing by slot key only was not rejected")
     ctx.stage("negative-control", cfg="WsServer_MC_NegRoute.cfg", error=neg["error"])
+    if not ctx.quick():
+        live = run_tlc(ctx, "WsServer_MC", "WsServer_MC_Live.cfg", workers=4, timeout=1800)
+        require_mc_ok(ctx, live, "WsServer: every scrape of an open connection is eventually answered (weak fairness)")
+        race = run_tlc(ctx, "WsServer_MC", "WsServer_MC_Race.cfg", workers=8, timeout=600)
+        ctx.stage("model-only observation", cfg="WsServer_MC_Race.cfg",
+                  note="with closes allowed while an announce is in flight TLC reports: %s" % race.get("error"))
     cargo_build(ctx)
     trace = []
     combos = [(1, 1), (2, 3), (3, 2)] if ctx.quick() else [(s, w) for s in (1, 2, 3) for w in (1, 2, 3)]
